@@ -76,6 +76,8 @@ class Gen:
             elif r2 < 0.45:
                 self.serial += 1
                 op["raises"] = self.serial       # a coroutine that fails
+            if r2 < 0.45 and rng.random() < 0.3:
+                op["scoped"] = True              # ... from inside a Scope: Concurrent[...]
             return op
         if r < 0.7:
             return {"op": "wait", "ev": "E%d" % rng.randrange(self.n_events)}
